@@ -139,6 +139,8 @@ class Census:
                 if root in self.globals_all and root not in locals_ and root not in params: info['gwrites'].add(root)
                 elif root in info['statics']: info['gwrites'].add(name + '.' + root)
 
+        callee_nodes = set()
+
         def visit(e):
             k = e.get('kind')
             if k == 'VarDecl':
@@ -146,10 +148,13 @@ class Census:
                 if e.get('storageClass') == 'static': info['statics'].append(e.get('name'))
             if k == 'DeclRefExpr':
                 rd = e.get('referencedDecl', {})
+                if rd.get('kind') == 'FunctionDecl' and id(e) not in callee_nodes:
+                    info.setdefault('fnrefs', set()).add(rd.get('name', '?'))      # a function named other than as the callee of a direct call (address taken)
                 if rd.get('kind') == 'VarDecl' and rd.get('name') in self.globals_all and rd.get('name') not in locals_ and rd.get('name') not in params:
                     info['greads'].add(rd['name'])
             if k == 'CallExpr':
                 callee = strip(e['inner'][0])
+                callee_nodes.add(id(callee))
                 cname = callee.get('referencedDecl', {}).get('name') if callee.get('kind') == 'DeclRefExpr' else None
                 if cname:
                     info['calls'].add(cname)
@@ -212,6 +217,8 @@ def generate(repo, cfgdir):
          'def globalWrites : List (String × String) := [' + ', '.join('(%s, %s)' % (lean_str(f), lean_str(g)) for f in fs for g in sorted(C.funcs[f]['gwrites'])) + ']', '',
          '/-- (function, static local) -/',
          'def staticLocals : List (String × String) := [' + ', '.join('(%s, %s)' % (lean_str(f), lean_str(g)) for f in fs for g in C.funcs[f]['statics']) + ']', '',
+         '/-- (function, function whose address it takes): every mention of a function other than as the callee of a direct call -/',
+         'def fnRefs : List (String × String) := [' + ', '.join('(%s, %s)' % (lean_str(f), lean_str(g)) for f in fs for g in sorted(C.funcs[f].get('fnrefs', ()))) + ']', '',
          '/-- ids of functions that store, through a pointer, into an object reached via an item (header, payload, slot array, pair, metadata, chunk bookkeeping) -/',
          'def itemStorers : List Nat := ' + ids([f for f in fs if C.funcs[f]['stores']]), '',
          '/-- the same with the types written, for the reader -/',
